@@ -65,6 +65,16 @@ PROPS = {
         "assumptions": STORE_ASSUMPTIONS + ["the snapshot storage is documented as not concurrency-safe: writers are generated one at a time",
                                             "whether a file is replaced by rename or rewritten in place is decided per call from the inode of the target (same inode => in-place prefixes are crash images too)"],
     },
+    "C19": {
+        "test": "(TestC19|TestC19Transfer)", "corpus_test": "", "level": "exploration", "engine": "E-CODEC",
+        "tiers": {
+            "quick": {"shards": 8, "cases": 3000, "timeout_s": 900},
+            "thorough": {"shards": 16, "cases": 50000, "timeout_s": 7200},
+        },
+        "assumptions": ["round trips go through two instances of the bundled transport on loopback (real gRPC, real time)",
+                        "nil and empty byte slices are equal on the wire (protobuf cannot distinguish them); LogEntry.Offset is storage-local and not compared",
+                        "the end-to-end transfer uses real time with generous deadlines (8 s per transfer); it runs in shard 0 only"],
+    },
     "C12": {
         "test": "TestC12", "corpus_test": "TestCorpusC12", "level": "fault_enumeration",
         "engine": "E-STORE",
@@ -117,6 +127,11 @@ MANIFEST_TEXT = {
         },
         "assumptions": STORE_ASSUMPTIONS + ["the snapshot storage is documented as not concurrency-safe: writers are generated one at a time",
                                             "whether a file is replaced by rename or rewritten in place is decided per call from the inode of the target (same inode => in-place prefixes are crash images too)"],
+    },
+    "C19": {
+        "technique": "property-based round-trip testing through the real gRPC transport and the storage encoders, plus an end-to-end snapshot transfer",
+        "level_text": "Generated requests and responses of all three RPCs (all fields over 0/1/max uint64/random, empty/ASCII/multi-byte ids, 0-64 entries of all three types incl. encoded configurations, nil/empty/1 B/64 KiB data) are sent between two bundled transports over loopback and compared field by field; log entries, term/vote, configurations (0-7 members) and snapshot metadata are written through the storage API and read back by a fresh instance; snapshots of 0 B to 5 MiB (thorough: 6 MiB, twelve sizes around the 32 KiB chunk size and the 4 MiB RPC limit) are transferred from a leader to an empty node over the bundled transport and compared byte by byte.",
+        "level_note": "Trusted: rapid's generators, the comparison helpers; the transfer part depends on real time (generous deadlines) and free loopback ports.",
     },
     "C13": {
         "technique": "model-based property test (rapid state machine) with crash-image enumeration",
